@@ -2038,6 +2038,70 @@ func t2targeted(c *Ctx) []string {
 		c.Stat("t2enc.family", fmt.Sprintf("diagonal-lines/%d", n))
 		out = append(out, t2plain(t2fromDeltas(nz(0), nz(0), segs)))
 	}
+	// (e) almost axis-aligned: the delta that decides "horizontal / vertical" is k*2^-16 or k*2^-17 (|k| = 1..8):
+	// such a delta is NOT zero and must survive every operator form (moveto, lines, all curve forms), also along
+	// staircases where dropped deltas would accumulate
+	tiny := func() int {
+		k := r.Range(1, 8)
+		if r.Bool() {
+			k = -k
+		}
+		if r.Chance(1, 3) {
+			return k * 8 // k * 2^-17: rounds to a multiple of 2^-16
+		}
+		return k * 16 // k * 2^-16
+	}
+	for rep := 0; rep < 40; rep++ {
+		var segs [][]int
+		n := r.Range(1, 12)
+		if rep%8 == 7 {
+			n = r.Range(30, 60) // staircase: accumulation
+		}
+		kind := rep % 4
+		for i := 0; i < n; i++ {
+			big := nz(0)
+			switch kind {
+			case 0: // almost h/v lines, alternating
+				if i%2 == 0 {
+					segs = append(segs, []int{big, tiny()})
+				} else {
+					segs = append(segs, []int{tiny(), big})
+				}
+			case 1: // almost-aligned curves: start and end tangents
+				s := []int{nz(0), nz(0), nz(0), nz(0), nz(0), nz(0)}
+				if i%2 == 0 {
+					s[1], s[4] = tiny(), tiny() // almost hv
+				} else {
+					s[0], s[5] = tiny(), tiny() // almost vh
+				}
+				segs = append(segs, s)
+			case 2: // almost hh / vv curves
+				s := []int{nz(0), nz(0), nz(0), nz(0), nz(0), nz(0)}
+				if r.Bool() {
+					s[1], s[5] = tiny(), tiny()
+				} else {
+					s[0], s[4] = tiny(), tiny()
+				}
+				segs = append(segs, s)
+			default: // mixture, some exactly aligned
+				if r.Bool() {
+					segs = append(segs, []int{big, Pick(r, []int{0, tiny()})})
+				} else {
+					s := []int{nz(0), Pick(r, []int{0, tiny()}), nz(0), nz(0), Pick(r, []int{0, tiny()}), nz(0)}
+					segs = append(segs, s)
+				}
+			}
+		}
+		c.Stat("t2enc.family", "almost-axis-aligned/"+[]string{"lines", "hv-vh curves", "hh-vv curves", "mixture"}[kind])
+		mx, my := nz(0), nz(0)
+		switch rep % 3 {
+		case 0:
+			my = tiny() // almost hmoveto
+		case 1:
+			mx = tiny() // almost vmoveto
+		}
+		out = append(out, t2plain(t2fromDeltas(mx, my, segs)))
+	}
 	// (d) header: width default / explicit x number of stem pairs x mask first / no mask
 	for _, nh := range []int{0, 1, 23, 24, 25, 48} {
 		for _, nv := range []int{0, 1, 23, 24, 25, 48} {
@@ -2092,6 +2156,7 @@ type t2cffTable struct {
 	dflt []byte
 	ents map[int][]byte
 	ord  []int
+	callable []int // indices with a non-empty body that glyphs may call
 }
 
 func (t *t2cffTable) String() string {
@@ -2213,10 +2278,10 @@ func t2cffPrivate(fd t2cffFD) []byte {
 }
 
 // t2assembleCFF builds the file
-func t2assembleCFF(cid bool, gs *t2cffTable, fds []t2cffFD, glyphFD []int, glyphs [][]byte) []byte {
+func t2assembleCFF(cid bool, gs *t2cffTable, fds []t2cffFD, glyphFD []int, glyphs [][]byte, strs [][]byte) []byte {
 	hdr := []byte{1, 0, 4, 4}
 	nameIdx := t2cffIndex([][]byte{[]byte("T")})
-	strIdx := t2cffIndex(nil)
+	strIdx := t2cffIndex(strs)
 	gsIdx := t2cffIndex(gs.blobs())
 	csIdx := t2cffIndex(glyphs)
 	n := len(glyphs)
@@ -2342,7 +2407,15 @@ func t2parseCffCase(f Fields) (bool, *t2cffTable, []t2cffFD, []int, [][]byte) {
 func init() {
 	ops["t2.cfffile"] = func(f Fields) string {
 		cid, gs, fds, gfd, glyphs := t2parseCffCase(f)
-		data := t2assembleCFF(cid, gs, fds, gfd, glyphs)
+		// custom strings (never referenced): `strs=k` zero-length strings around one non-empty string
+		var strs [][]byte
+		if k := f.Int("strs"); k > 0 {
+			for i := 0; i < k; i++ {
+				strs = append(strs, []byte{})
+			}
+			strs = append(strs, []byte("x"), []byte{})
+		}
+		data := t2assembleCFF(cid, gs, fds, gfd, glyphs, strs)
 		font, err := cff.Read(bytes.NewReader(data))
 		if err != nil {
 			return "readerr:" + strings.ReplaceAll(err.Error(), " ", "_")
@@ -2354,6 +2427,61 @@ func init() {
 		return strings.Join(out, " | ")
 	}
 	areas["t2cff"] = genT2cff
+}
+
+// t2cffFill gives the table callable bodies and, often, zero-length entries (legal in a CFF INDEX: an unused,
+// blanked subroutine) at the first / a middle / the last position and several in a row
+func t2cffFill(c *Ctx, t *t2cffTable, body func(k int) []byte) {
+	r := c.Rng
+	n := t.n
+	if n == 0 {
+		return
+	}
+	set := func(k int, b []byte) {
+		if k < 0 || k >= n {
+			return
+		}
+		if _, ok := t.ents[k]; !ok {
+			t.ents[k] = b
+			t.ord = append(t.ord, k)
+			if len(b) > 0 {
+				t.callable = append(t.callable, k)
+			}
+		}
+	}
+	mode := r.Intn(4) // 0: no empty entries, 1: first empty, 2: last empty, 3: empty entries inside
+	if n < 2 {
+		mode = 0
+	}
+	switch mode {
+	case 1:
+		set(0, []byte{})
+		c.Stat("t2cff.empty-entries", "first")
+	case 2:
+		set(n-1, []byte{})
+		c.Stat("t2cff.empty-entries", "last")
+	case 3:
+		for _, k := range []int{1, 2, 3, n / 2, n - 2} {
+			if k > 0 && k < n-1 {
+				set(k, []byte{})
+			}
+		}
+		c.Stat("t2cff.empty-entries", "inside, several in a row")
+	default:
+		c.Stat("t2cff.empty-entries", "none")
+	}
+	for _, k := range []int{0, n / 2, n - 1} {
+		set(k, body(k))
+	}
+	if len(t.callable) == 0 {
+		// make sure something can be called
+		for k := 0; k < n; k++ {
+			if _, ok := t.ents[k]; !ok {
+				set(k, body(k))
+				break
+			}
+		}
+	}
 }
 
 func genT2cff(c *Ctx) {
@@ -2373,14 +2501,7 @@ func genT2cff(c *Ctx) {
 			nfd = r.Range(1, 3)
 		}
 		gs := &t2cffTable{n: Pick(r, []int{0, 1, 3, 1239, 1240}), dflt: []byte{11}, ents: map[int][]byte{}}
-		if gs.n > 0 {
-			for _, k := range []int{0, gs.n - 1} {
-				if _, ok := gs.ents[k]; !ok {
-					gs.ents[k] = cat(num(5+k%40), num(6), []byte{5, 11})
-					gs.ord = append(gs.ord, k)
-				}
-			}
-		}
+		t2cffFill(c, gs, func(k int) []byte { return cat(num(5+k%40), num(6), []byte{5, 11}) })
 		fds := make([]t2cffFD, nfd)
 		for j := range fds {
 			fd := &fds[j]
@@ -2396,16 +2517,8 @@ func genT2cff(c *Ctx) {
 				n = Pick(r, []int{33899, 33900})
 			}
 			fd.subrs = &t2cffTable{n: n, dflt: []byte{11}, ents: map[int][]byte{}}
-			for _, k := range []int{0, n / 2, n - 1} {
-				if k < 0 || k >= n {
-					continue
-				}
-				if _, ok := fd.subrs.ents[k]; !ok {
-					// a body that identifies Font DICT and index
-					fd.subrs.ents[k] = cat(num(10+7*j+k%30), num(3+j), []byte{5, 11})
-					fd.subrs.ord = append(fd.subrs.ord, k)
-				}
-			}
+			jj := j
+			t2cffFill(c, fd.subrs, func(k int) []byte { return cat(num(10+7*jj+k%30), num(3+jj), []byte{5, 11}) })
 			c.Stat("t2cff.local-subrs", fmt.Sprint(n))
 			c.Stat("t2cff.width-operands", map[bool]string{true: "real", false: "integer"}[fd.real])
 		}
@@ -2426,12 +2539,12 @@ func genT2cff(c *Ctx) {
 				c.Stat("t2cff.glyph-width", "default")
 			}
 			code = append(code, cat(num(10+g), num(20), []byte{21})...)
-			if fd.subrs.n > 0 {
-				k := Pick(r, fd.subrs.ord)
+			if len(fd.subrs.callable) > 0 {
+				k := Pick(r, fd.subrs.callable)
 				code = append(code, cat(num(k-t2bias(fd.subrs.n)), []byte{10})...)
 			}
-			if gs.n > 0 {
-				k := Pick(r, gs.ord)
+			if len(gs.callable) > 0 {
+				k := Pick(r, gs.callable)
 				code = append(code, cat(num(k-t2bias(gs.n)), []byte{29})...)
 			}
 			code = append(code, 14)
@@ -2451,8 +2564,10 @@ func genT2cff(c *Ctx) {
 		if cid {
 			cidS = "1"
 		}
-		out := c.Case(Direct, "t2.cfffile", fmt.Sprintf("cid=%s gs=%s fds=%s glyphs=%s", cidS, gs.String(),
-			strings.Join(fdStrs, "|"), strings.Join(glyphs, ";")), true)
+		nstr := Pick(r, []int{0, 0, 1, 3})
+		c.Stat("t2cff.empty-strings", fmt.Sprint(nstr))
+		out := c.Case(Direct, "t2.cfffile", fmt.Sprintf("cid=%s gs=%s fds=%s glyphs=%s strs=%d", cidS, gs.String(),
+			strings.Join(fdStrs, "|"), strings.Join(glyphs, ";"), nstr), true)
 		if strings.HasPrefix(out, "readerr") || strings.HasPrefix(out, "panic") {
 			c.Stat("t2cff.ALARM", out)
 		}
